@@ -29,23 +29,33 @@ API (everything else is private)
                               client knew), ``.attach`` (STREAM: CircuitM newly attached to, or None),
                               ``.zombie`` (STREAM: CLOSED following FAILED for the same connection),
                               ``.event()`` -> dict for ``wire.encode_event``
-``steps(max_size, weights)``  Hypothesis strategy for step lists
-``Session(world, before_connect=None, hold_acks=True)``
-                              builds ScriptedServer + ControlPipe + ``TorState(pipe.proto)``; calls
-                              ``before_connect(session)`` (state exists, nothing bootstrapped yet:
-                              the place to add listeners/attachers early), connects, and checks that
-                              ``state.post_bootstrap`` fired.  The handler answers ns/all,
-                              circuit-status, stream-status, address-mappings/all, entry-guards,
-                              process/pid, ip-to-country/* from the world.
+``steps(max_size=40, min_size=0, weights=None, extra_ops=None)``
+                              Hypothesis strategy for step lists; ``extra_ops`` = {name: weight} of ops the
+                              caller's own driver interprets (C08: listeners, waits, acks)
+``Session(world, before_connect=None, hold_acks=True, extra_handler=None)``
+                              builds ScriptedServer + ControlPipe + ``TorState(pipe.proto)`` (the same
+                              pieces as ``harness.bootstrapped_pipe``, but the state object exists before
+                              anything is bootstrapped); calls ``before_connect(session)`` (the place to
+                              add listeners/attachers early), connects, and checks that
+                              ``state.post_bootstrap`` fired (else raises ``BootFailed``) and that CIRC and
+                              STREAM were subscribed.  The handler answers ns/all, circuit-status,
+                              stream-status, address-mappings/all (empty), entry-guards, process/pid,
+                              ip-to-country/* and SETEVENTS from the world; everything else falls through
+                              to ScriptedServer's built-ins (SETCONF, ATTACHSTREAM, ... -> 250 OK).
   ``.state .pipe .server .world``
   ``.step(step)``             world.apply + ``.emit(report)``; returns the report (or None)
-  ``.pump()``                 call after any client-side action that may have written a command
-                              (raises ``BootFailed`` from the constructor if post_bootstrap did not fire)
   ``.emit(report)``           ``pipe.inject(wire.encode_event(...))`` - through the real parser
+  ``.pump()``                 call after any client-side action that may have written a command
   ``.close_lines`` / ``.close_replies``  CLOSE* commands received so far and tor's answer to each
   ``.held``                   replies to CLOSECIRCUIT/CLOSESTREAM not yet sent (``hold_acks=True``)
   ``.ack()``                  send the oldest held reply; returns it (or None)
-  ``.extra_handler``          optional ``handler(line)`` consulted first (C09: ATTACHSTREAM, SETCONF)
+  ``.extra_handler``          optional ``handler(line)`` consulted first; return ``NotImplemented`` to fall
+                              through (C09: ATTACHSTREAM, SETCONF __LeaveStreamsUnattached)
+
+Extra op for C09 (not in ``OPS``/``DEFAULT_WEIGHTS``): ``s_controller_wait`` (tor >= 0.4.5 with
+__LeaveStreamsUnattached=1 prints ``STREAM n CONTROLLER_WAIT 0 target`` for an unattached stream).
+To make tor attach stream ``s`` to circuit ``c`` (after an ATTACHSTREAM) use the ``s_sent`` op with the
+indices of ``s`` among the unattached streams and of ``c`` among the BUILT circuits (sorted by id).
 
 What the world emits follows control-spec 4.1.1/4.1.2 and tor's control_events.c /
 getinfo_helper_events(): see the comments at each renderer.
@@ -724,12 +734,12 @@ class BootFailed(Exception):
 
 
 class Session(object):
-    def __init__(self, world, before_connect=None, hold_acks=True):
+    def __init__(self, world, before_connect=None, hold_acks=True, extra_handler=None):
         from txtorcon import TorState
         self.world = world
         self.hold_acks = hold_acks
         self.held = []
-        self.extra_handler = None
+        self.extra_handler = extra_handler
         self.subscribed = set()
         self.close_lines = []           # CLOSECIRCUIT/CLOSESTREAM lines received, in order
         self.close_replies = []         # the reference reply to each of them (same index)
